@@ -170,6 +170,8 @@ def phase(run, tier, seed, tot, pid, usability=False, sparse_only=False):
     print(f"[{pid}] real call path: {len(specs)} tensor_method requests in {len(units)} work units", flush=True)
     validated = 0
     for status, res in run_pool("vx.rtsweep", "work", rotate(units, seed)):
+        if status == "skipped":
+            continue
         if status != "ok":
             run.report({"signature": {"kind": status}, "what": f"worker failed in the real-call-path sweep: {res}", "case": {}})
             continue
